@@ -35,10 +35,18 @@ def eta_recipes():
         .map(lambda v: {'vals': v}),
         st.tuples(st.integers(1, 9), st.integers(0, 40)).map(
             lambda t: {'vals': [1.0] + [1e-9] * t[0], 'off': t[1]}),
+        # sparse indicators: exact zeros everywhere except on one or two entries (the marked set carries the whole sum)
+        st.tuples(st.integers(1, 12), st.integers(0, 40), st.sampled_from([1.0, 0.5, 3.0])).map(
+            lambda t: {'vals': [1.0, t[2]] + [0.0] * t[0] if t[1] % 2 else [1.0] + [0.0] * t[0], 'off': t[1]}),
     )
 
 
 THETAS = st.one_of(st.sampled_from([0.5, 0.6, 0.9]), st.floats(0.01, 0.99), st.sampled_from([1e-3, 1e-6, 0.999, 0.9999999, 0.25, 0.75]))
+
+
+# theta = 1 is outside the domain of every property (0 < theta < 1; the driver asserts it): on the unchanged tree the
+# closing assertion of both marking routines already fails by rounding for theta = 1 and generic indicators
+THETAS_MESH = THETAS
 
 
 def ops(allow=('t', 'x', 'tx', 'unif', 'unifx', 'iso', 'aniso', 'grade'), time_bias=0.5):
@@ -54,9 +62,9 @@ def ops(allow=('t', 'x', 'tx', 'unif', 'unifx', 'iso', 'aniso', 'grade'), time_b
     if 'unifx' in allow:
         alts.append((1, st.just(['unifx'])))
     if 'iso' in allow:
-        alts.append((1, st.tuples(THETAS, eta_recipes()).map(lambda t: ['iso', t[0], t[1]])))
+        alts.append((1, st.tuples(THETAS_MESH, eta_recipes()).map(lambda t: ['iso', t[0], t[1]])))
     if 'aniso' in allow:
-        alts.append((1, st.tuples(THETAS, eta_recipes()).map(lambda t: ['aniso', t[0], t[1]])))
+        alts.append((1, st.tuples(THETAS_MESH, eta_recipes()).map(lambda t: ['aniso', t[0], t[1]])))
     if 'grade' in allow:
         alts.append((1, st.sampled_from([1.0, 1.5, 2.0]).map(lambda s: ['grade', s])))
     pool = []
